@@ -8,7 +8,7 @@ import (
 	"google.golang.org/protobuf/proto"
 )
 
-// VerifC20AtomicStore: one to two consecutive stores (whole ClientConf,
+// VerifC20AtomicStore: one to two (thorough tier: three) consecutive stores (whole ClientConf,
 // generation, public key, decoy list, phantom subnets) against a file-system
 // model in which the process can die before every micro-step (create, write,
 // rename, remove, fsync ...) and every micro-step can fail.  At every crash
@@ -30,7 +30,11 @@ func VerifC20AtomicStore() {
 		verifnd.Assert(verifnd.FSIs(target, prev) || verifnd.FSIs(target, next), "C20.crash-leaves-previous-or-new")
 		verifnd.Reach("C20.crash-explored")
 	})
-	stores := 1 + verifnd.Choose("stores", 2)
+	maxStores := 2
+	if verifnd.Thorough() {
+		maxStores = 3 // thorough: a third consecutive store (a failed or crashed store in the middle of a history)
+	}
+	stores := 1 + verifnd.Choose("stores", maxStores)
 	for i := 0; i < stores; i++ {
 		// prev = what is on disk: the last configuration that was stored successfully
 		before := a.config
